@@ -603,6 +603,43 @@ impl CompiledPredicate {
                 }
             }};
         }
+        // f64 comparisons go through this key: the interpreter's arrow
+        // kernels order floats by IEEE 754 totalOrder (NaN greatest and equal
+        // to itself, -0.0 < +0.0), which `PartialOrd` on f64 does not. Mapping
+        // the bits to a monotone i64 keeps the loops branch-free.
+        #[inline(always)]
+        fn total_order_key(x: f64) -> i64 {
+            let b = x.to_bits() as i64;
+            b ^ ((((b >> 63) as u64) >> 1) as i64)
+        }
+        macro_rules! cmp_shapes_f64 {
+            ($a:expr, $b:expr, $dst:expr, $cmp:tt) => {{
+                let d = &mut m[$dst as usize];
+                match ($a, $b) {
+                    (FOp::Slice(x), FOp::Slice(y)) => {
+                        for i in 0..len {
+                            d[i] = (total_order_key(x[i]) $cmp total_order_key(y[i])) as u8;
+                        }
+                    }
+                    (FOp::Slice(x), FOp::Scalar(y)) => {
+                        let y = total_order_key(y);
+                        for i in 0..len {
+                            d[i] = (total_order_key(x[i]) $cmp y) as u8;
+                        }
+                    }
+                    (FOp::Scalar(x), FOp::Slice(y)) => {
+                        let x = total_order_key(x);
+                        for i in 0..len {
+                            d[i] = (x $cmp total_order_key(y[i])) as u8;
+                        }
+                    }
+                    (FOp::Scalar(x), FOp::Scalar(y)) => {
+                        let v = (total_order_key(x) $cmp total_order_key(y)) as u8;
+                        d[..len].fill(v);
+                    }
+                }
+            }};
+        }
         // The operator match happens ONCE per chunk; every inner loop is
         // monomorphic and vectorizes.
         macro_rules! cmp_loop {
@@ -681,7 +718,14 @@ impl CompiledPredicate {
                         Src::Reg(r) => FOp::Slice(&f[*r as usize][..len]),
                         other => resolve(other),
                     };
-                    cmp_loop!(a_op, b_op, op, *dst, FOp);
+                    match op {
+                        Cmp::Eq => cmp_shapes_f64!(a_op, b_op, *dst, ==),
+                        Cmp::Ne => cmp_shapes_f64!(a_op, b_op, *dst, !=),
+                        Cmp::Lt => cmp_shapes_f64!(a_op, b_op, *dst, <),
+                        Cmp::Le => cmp_shapes_f64!(a_op, b_op, *dst, <=),
+                        Cmp::Gt => cmp_shapes_f64!(a_op, b_op, *dst, >),
+                        Cmp::Ge => cmp_shapes_f64!(a_op, b_op, *dst, >=),
+                    }
                 }
                 Instr::CmpI64 { a, b, op, dst } => {
                     let resolve = |src: &Src| -> IOp<'_> {
